@@ -410,6 +410,17 @@ func onlyCalledOrDeferred(mc *ssa.MakeClosure) bool {
 	return true
 }
 
+func capturedByClosure(al *ssa.Alloc) bool {
+	if refs := al.Referrers(); refs != nil {
+		for _, r := range *refs {
+			if _, ok := r.(*ssa.MakeClosure); ok {
+				return true
+			}
+		}
+	}
+	return false
+}
+
 func fvStored(fv *ssa.FreeVar) bool {
 	if fr := fv.Referrers(); fr != nil {
 		for _, u := range *fr {
@@ -744,6 +755,11 @@ func (e *Engine) pruneFacts(c *config, b *ssa.BasicBlock) {
 	out := c.facts[:0]
 	for _, f := range c.facts {
 		live := false
+		if al, ok := f.v.(*ssa.Alloc); ok && capturedByClosure(al) {
+			// a deferred closure may read the variable when the function leaves
+			out = append(out, f)
+			continue
+		}
 		if fv, ok := f.v.(*ssa.FreeVar); ok && fvStored(fv) {
 			// a captured variable this closure assigns is part of its outcome
 			out = append(out, f)
